@@ -306,6 +306,9 @@ func classify(err error) string {
 	}
 	s := err.Error()
 	has := func(x string) bool { return strings.Contains(s, x) }
+	if has("context canceled") {
+		return "err cancel"
+	}
 	switch {
 	case has("failed to open sources"):
 		return "err open"
@@ -409,8 +412,47 @@ type byteW struct{ b []byte }
 
 func (w *byteW) Write(p []byte) (int, error) { w.b = append(w.b, p...); return len(p), nil }
 
+// pollCtx is a context whose cancellation is driven by how often it has been
+// polled: from the cancelAt-th call of Done() on (0-based) it is cancelled, for
+// good.  The importer looks at its context in exactly three places (once per
+// batch in each of the two validators, once per iteration of the write loop),
+// always through Done(); so "cancelled at poll k" names every point at which a
+// cancellation can first be noticed: k = 0 before anything, k inside the
+// block-header validation, inside the filter-header validation, at the first
+// write batch, between two write batches, after the last one.
+type pollCtx struct {
+	cancelAt int // < 0: never
+	polls    int
+	closed   chan struct{}
+	open     chan struct{}
+}
+
+func newPollCtx(cancelAt int) *pollCtx {
+	c := &pollCtx{cancelAt: cancelAt, closed: make(chan struct{}), open: make(chan struct{})}
+	close(c.closed)
+	return c
+}
+
+func (c *pollCtx) cancelled() bool { return c.cancelAt >= 0 && c.polls > c.cancelAt }
+
+func (c *pollCtx) Deadline() (time.Time, bool) { return time.Time{}, false }
+func (c *pollCtx) Done() <-chan struct{} {
+	c.polls++
+	if c.cancelled() {
+		return c.closed
+	}
+	return c.open
+}
+func (c *pollCtx) Err() error {
+	if c.cancelled() {
+		return context.Canceled
+	}
+	return nil
+}
+func (c *pollCtx) Value(any) any { return nil }
+
 // runImport runs the real importer with a watchdog.
-func runImport(w *world, bp, fp string, bs int, failB, failF int) string {
+func runImport(w *world, bp, fp string, bs int, failB, failF, cancelAt int) string {
 	type res struct{ s string }
 	ch := make(chan res, 1)
 	go func() {
@@ -432,7 +474,7 @@ func runImport(w *world, bp, fp string, bs int, failB, failF int) string {
 			ch <- res{"err options"}
 			return
 		}
-		_, err = imp.Import(context.Background())
+		_, err = imp.Import(newPollCtx(cancelAt))
 		ch <- res{classify(err)}
 	}()
 	select {
@@ -463,6 +505,7 @@ type directive struct {
 	pos    string // "first-new": corruption exactly at min(tips)+1
 	bs     int
 	length int // headers above the lower tip
+	cancel int // poll at which the context is cancelled (0 = not at all, k+1 = poll k)
 }
 
 // corpus: directed cases run at the start of every run.  "first new header bad
@@ -477,6 +520,16 @@ var corpus = func() []directive {
 			}
 		}
 		out = append(out, directive{name: "first-new-" + kind + "-block-ahead", bTip: 4, ahead: 2, kind: kind, pos: "first-new", bs: 2, length: 5})
+	}
+	// the context is cancelled before / during validation and the file is corrupt after the point validation had
+	// reached: nothing of it may reach the stores, whatever the batch size
+	for _, kind := range []string{"badprev", "badpow", "honest"} {
+		for _, bs := range []int{2, 1000} {
+			for _, cancel := range []int{1, 2, 3} {
+				out = append(out, directive{name: "cancel-validation-" + kind, bTip: 2, kind: kind, pos: "first-new",
+					bs: bs, length: 5, cancel: cancel})
+			}
+		}
 	}
 	// block store ahead of the filter store (the state of a node still syncing filter headers, and the state a crash
 	// between a batch's two writes leaves): honest file from height 0 ending below the block tip, at it, above it
@@ -769,8 +822,44 @@ func oneCaseD(t *tr.W, r *rand.Rand, forceKind string, dir *directive) {
 	if spec.noHeaders || spec.truncB > 0 {
 		openOK = 0
 	}
-	t.Case("s %d sf %d bs %d bnet %d fnet %d btyp %d ftyp %d open %d failb %s failf %s kind %s",
-		spec.bstart, spec.fstart, bs, spec.bnet, spec.fnet, spec.btyp, spec.ftyp, openOK, optStr(failB), optStr(failF), kind)
+	// context cancellation: noticed first at poll `cancelAt` (see pollCtx)
+	cancelAt := -1
+	nbat := (len(spec.blocks) + bs - 1) / bs
+	if dir != nil {
+		cancelAt = dir.cancel - 1
+	} else if !focus && r.Intn(4) == 0 {
+		switch r.Intn(6) {
+		case 0:
+			cancelAt = 0 // before anything
+		case 1:
+			cancelAt = r.Intn(max(1, nbat)) // during the block-header validation
+		case 2:
+			cancelAt = nbat + r.Intn(max(1, nbat)) // during the filter-header validation
+		case 3:
+			cancelAt = 2 * nbat // at the first write batch
+		case 4:
+			cancelAt = 2*nbat + 1 + r.Intn(3) // between two write batches
+		default:
+			cancelAt = 2*nbat + 1 + r.Intn(2*nbat+2) // possibly after the last one
+		}
+	}
+	if cancelAt >= 0 {
+		switch {
+		case cancelAt == 0:
+			t.Hit("cancel.before")
+		case cancelAt < nbat:
+			t.Hit("cancel.block-validation")
+		case cancelAt < 2*nbat:
+			t.Hit("cancel.filter-validation")
+		case cancelAt == 2*nbat:
+			t.Hit("cancel.first-write")
+		default:
+			t.Hit("cancel.later")
+		}
+	}
+	t.Case("s %d sf %d bs %d bnet %d fnet %d btyp %d ftyp %d open %d failb %s failf %s cancel %s kind %s",
+		spec.bstart, spec.fstart, bs, spec.bnet, spec.fnet, spec.btyp, spec.ftyp, openOK, optStr(failB), optStr(failF),
+		optStr(cancelAt), kind)
 	t.Hit("kind." + kind)
 	t.Hit(fmt.Sprintf("bs.%d", bs))
 	switch {
@@ -798,12 +887,12 @@ func oneCaseD(t *tr.W, r *rand.Rand, forceKind string, dir *directive) {
 		fl = append(fl, fmt.Sprint(n.f.id(spec.filters[i])))
 	}
 	t.Op("file", "b ["+strings.Join(bl, " ")+"] f ["+strings.Join(fl, " ")+"]")
-	r1 := runImport(w, bp, fp, bs, failB, failF)
+	r1 := runImport(w, bp, fp, bs, failB, failF, cancelAt)
 	t.Hit("result." + strings.ReplaceAll(r1, " ", "-"))
 	t.Op("import", r1)
 	t.Op("dump", w.dump(n))
 	// the second, identical import (no injected failures: "repeating the import changes nothing")
-	r2 := runImport(w, bp, fp, bs, -1, -1)
+	r2 := runImport(w, bp, fp, bs, -1, -1, -1)
 	t.Hit("result2." + strings.ReplaceAll(r2, " ", "-"))
 	t.Op("import", r2)
 	t.Op("dump", w.dump(n))
